@@ -120,6 +120,15 @@ SetShapeWhy(lines, w, h, ps, r) ==
        ELSE FirstBad(Len(r), Why)
 SetShapeOK(lines, w, h, ps, r) == SetShapeWhy(lines, w, h, ps, r) = "ok"
 
+\* get_line_length(line) for every line / get_shape(lines) = (w, h)
+MaxLineLen(lines) ==
+    IF lines = <<>> THEN 0
+    ELSE LET S == {LineLen(lines[i]) : i \in 1..Len(lines)} IN CHOOSE m \in S : \A x \in S : x <= m
+MeasureWhy(lines, lens, w, h) ==
+    IF Len(lens) # Len(lines) \/ \E i \in 1..Len(lines) : lens[i] # LineLen(lines[i]) THEN "line-length-differs"
+    ELSE IF w # MaxLineLen(lines) \/ h # Len(lines) THEN "shape-differs"
+    ELSE "ok"
+
 \* simplify(segs) -> segs
 SimplifyWhy(segs, r) ==
     IF CS(Flat(r)) = CS(Flat(segs)) THEN "ok" ELSE "characters-or-styles-changed"
